@@ -839,7 +839,72 @@ func (b *bb) scenarioSimple1() {
 }
 
 // v1: AddInput / RemoveInput called concurrently with traffic.
+// C17 for an added priority whose share is zero: one handler, FairDivider, priority 2 registered
+// (open, idle); AddInput(ch, 1) gives priority 1 a share of 0.  With TWO priorities the handler the
+// idle priority does not use is lent to the other one (finding F1 needs three), so the elements
+// of ch are delivered tagged 1, and GracefulStop() returns once both inputs are closed.
+func (b *bb) addZeroShare() {
+	before := b.fails()
+	rate := b.cycle("add-zero-share", 2) == 1
+	H, hi := uint(1), uint(2)
+	dv := p1.FairDivider
+	if rate {
+		// RateDivider: 6 handlers, priorities 100 and 1 - the share of 1 rounds to zero
+		H, hi, dv = 6, 100, p1.RateDivider
+	}
+	desc := fmt.Sprintf("v1 priority, H=%d, priority %d registered (open, idle), AddInput(ch, 1): shares %v", H, hi, dv([]uint{hi, 1}, H, nil))
+	first := make(chan int, 2)
+	output := make(chan p1.Prioritized[int], 1)
+	feedback := make(chan uint, 1)
+	dsc, err := p1.New(p1.Opts[int]{Divider: dv, Feedback: feedback, HandlersQuantity: H, Inputs: map[uint]<-chan int{hi: first}, Output: output})
+	if err != nil {
+		b.fail("C17 v1 New failed: %v", err)
+		return
+	}
+	ch := make(chan int, 5)
+	for i := 0; i < 5; i++ {
+		ch <- 100000 + i
+	}
+	close(ch)
+	dsc.AddInput(ch, 1)
+	got := 0
+	deadline := time.After(3 * time.Second)
+recv:
+	for got < 5 {
+		select {
+		case it := <-output:
+			if it.Priority != 1 || it.Item != 100000+got {
+				b.fail("C17 zero-share add: item %d delivered with priority %d, expected item %d tagged 1 (%s)", it.Item, it.Priority, 100000+got, desc)
+			}
+			got++
+			go func(p uint) { feedback <- p }(it.Priority)
+		case <-deadline:
+			break recv
+		}
+	}
+	if got < 5 {
+		b.fail("C17 zero-share add: AddInput(ch, 1) returned, ch holds 5 elements (and is closed), every handler is idle, but only %d of them were delivered within 3s (%s)", got, desc)
+	}
+	close(first)
+	gret := make(chan struct{})
+	go func() { dsc.GracefulStop(); close(gret) }()
+	select {
+	case <-gret:
+	case <-time.After(3 * time.Second):
+		if got == 5 {
+			b.fail("C17 zero-share add: GracefulStop() did not return within 3s although both inputs are closed and drained and everything was fed back (%s)", desc)
+		}
+		dsc.Stop()
+		<-gret
+	}
+	b.leakProbe("termination of v1 priority after a zero-share AddInput")
+	b.note("dynamic", "add-zero-share "+desc, before)
+}
+
 func (b *bb) scenarioDynamic() {
+	if b.cycle("dynamic-add-zero-share", 2) == 0 {
+		b.addZeroShare()
+	}
 	before := b.fails()
 	H := uint(2 + b.r.Intn(6))
 	ctx, cancel := context.WithCancel(context.Background())
